@@ -62,6 +62,30 @@ def mpn_tdiv_qr_off (qp rp np noff nl dp dl : Nat) (s : St) : R St := do
   let s ← s.store qp (toLimbs (nl - dl + 1) (val n / val d))
   s.store rp (toLimbs dl (val n % val d))
 
+/-- div.c:121-128 "copy and possibly extend u if necessary": returns (up, offset, usize, TMP blocks, state) -/
+def divPrepU (copy_u : Bool) (up uoff usize zeros : Nat) (st : St) : R (Nat × Nat × Nat × List Nat × St) :=
+  if copy_u then do
+    let l ← st.loadAt up uoff usize                           -- :125 MPN_COPY (tp+zeros, up, usize)
+    let r2 := st.malloc (List.replicate zeros 0 ++ l)         -- :124 MPN_ZERO (tp, zeros)
+    pure (r2.1, 0, usize + zeros, [r2.1], r2.2)               -- :126-127 up = tp; usize = tsize
+  else pure (up, uoff, usize, [], st)
+
+/-- div.c:130-135 "ensure divisor doesn't overlap quotient" -/
+def divPrepV (c : Bool) (vp vsize : Nat) (st : St) : R (Nat × List Nat × St) :=
+  if c then do
+    let r3 ← st.tmpCopy vp vsize                              -- :133
+    pure (r3.1, [r3.1], r3.2)                                 -- :134
+  else pure (vp, [], st)
+
+/-- div.c:137-147: the division, "strip possible zero high limb", the two header stores, TMP_FREE -/
+def divFinish (s : FSt) (r rp remp up uoff usize vp vsize prec : Nat) (neg : Bool) (rexp : Int) (tmps : List Nat) (st : St) : R FSt := do
+  let st ← mpn_tdiv_qr_off rp remp up uoff usize vp vsize st  -- :138
+  let top ← limbAt st rp prec                                 -- :141 high_zero = (rp[rsize-1] == 0), rsize = prec + 1
+  let hz := if top = 0 then 1 else 0
+  let rsize := prec + 1 - hz                                  -- :142
+  let s' := (s.withSt st).setSE r (if neg then -(rsize : Int) else (rsize : Int)) (rexp - hz)   -- :143, :145-146
+  pure (s'.withSt (tmps.foldl St.free s'.st))                 -- :147 TMP_FREE
+
 /-- mpf_div (r, u, v): mpf/div.c:58-148.  The three TMP areas (remainder, copy of v, padded copy of u) are carved out of
     one TMP block in the C (:114-119); they are separate blocks here, as under WANT_TMP_DEBUG (:105-111). -/
 def mpf_divV (V : FVariant) (r u v : Nat) (s : FSt) : R FSt := do
@@ -79,35 +103,13 @@ def mpf_divV (V : FVariant) (r u v : Nat) (s : FSt) : R FSt := do
     let up := s.st.ptr u                                      -- :89
     let vp := s.st.ptr v                                      -- :90
     let prospective : Int := (usize : Int) - (vsize : Int) + 1   -- :92
-    let rsize := prec + 1                                     -- :93
-    let zeros : Int := (rsize : Int) - prospective            -- :95
+    let zeros : Int := ((prec + 1 : Nat) : Int) - prospective -- :93, :95
     let copy_u : Bool := zeros > 0 ∨ (V.copyUIfOverlap ∧ rp = up)   -- :96
     let chop := (max (-zeros) 0).toNat                        -- :98
-    let uoff := chop                                          -- :99 up += chop
-    let usize := usize - chop                                 -- :100
-    let zeros := (zeros + chop).toNat                         -- :101
-    let tsize := usize + zeros                                -- :103
     let r1 := s.st.tmpAlloc vsize                             -- :108 / :116 remp
-    let remp := r1.1
-    let st := r1.2
-    -- :122-128 copy and possibly extend u
-    let (up, uoff, usize, t1, st) ← (if copy_u then do
-        let l ← st.loadAt up uoff usize                       -- :125 MPN_COPY (tp+zeros, up, usize)
-        let r2 := st.malloc (List.replicate zeros 0 ++ l)     -- :124 MPN_ZERO (tp, zeros)
-        pure (r2.1, 0, tsize, [r2.1], r2.2)                   -- :126-127
-      else pure (up, uoff, usize, [], st))
-    -- :131-135 ensure divisor doesn't overlap quotient
-    let (vp, t2, st) ← (if V.copyV ∧ rp = vp then do
-        let r3 ← st.tmpCopy vp vsize                          -- :133
-        pure (r3.1, [r3.1], r3.2)                             -- :134
-      else pure (vp, [], st))
-    let st ← mpn_tdiv_qr_off rp remp up uoff usize vp vsize st   -- :138
-    let top ← limbAt st rp (rsize - 1)                        -- :141 high_zero = (rp[rsize-1] == 0)
-    let hz := if top = 0 then 1 else 0
-    let rsize := rsize - hz                                   -- :142
-    let rexp := rexp - hz                                     -- :143
-    let s' := (s.withSt st).setSE r (if neg then -(rsize : Int) else (rsize : Int)) rexp   -- :145-146
-    pure (s'.withSt ((remp :: t1 ++ t2).foldl St.free s'.st)) -- :147 TMP_FREE
+    let pu ← divPrepU copy_u up chop (usize - chop) (zeros + chop).toNat r1.2   -- :99-103, :121-128
+    let pv ← divPrepV (V.copyV ∧ rp = vp) vp vsize pu.2.2.2.2 -- :130-135
+    divFinish s r rp r1.1 pu.1 pu.2.1 pu.2.2.1 pv.1 vsize prec neg rexp (r1.1 :: pu.2.2.2.1 ++ pv.2.1) pv.2.2
 
 def mpf_div := mpf_divV .c
 
